@@ -24,5 +24,6 @@ func main() {
 		{Name: "wal-3pg-4ops-exhaustive", Cfg: "MC_DBFile_wal.cfg", Timeout: 15 * time.Minute, MaxKeep: core.Pick(args, 1200, 10000)},
 		{Name: "rb-beyond-3pg-3ops-exhaustive", Cfg: "MC_DBFile_rb_beyond.cfg", Timeout: 10 * time.Minute, MaxKeep: core.Pick(args, 400, 0)},
 		{Name: "rb-drop-recreate-3pg-4ops-exhaustive", Cfg: "MC_DBFile_drop.cfg", Timeout: 10 * time.Minute, MaxKeep: core.Pick(args, 500, 0)},
+		{Name: "deep-simulation-4pg-8ops", Cfg: "MC_DBFile_sim.cfg", Simulate: true, Num: core.Pick(args, 40, 400), Depth: 200, Timeout: 10 * time.Minute, MaxKeep: core.Pick(args, 150, 3000)},
 	})
 }
